@@ -345,7 +345,7 @@ theorem device_state_is_trace_replay (env : Env) (ops : List Op) :
 more live loop — nothing else changed (but the two written registers are now cached). -/
 theorem start_ok_state (env : Env) (cap : Nat) (s s' : State)
     (h : step env (.start cap) s = (.ok (), s')) :
-    s'.dev = startedDev s.dev ∧ s.dev.loopFlag = false ∧ s.dev.ctxt ≠ none ∧ cap ≠ 0 :=
+    s'.dev = startedDev s.dev cap ∧ s.dev.loopFlag = false ∧ s.dev.ctxt ≠ none ∧ cap ≠ 0 :=
   (exact_startStreaming env cap s.dev s rfl).1 () s' h
 
 /-- A `stop_streaming` call that returns `Ok` either found no loop running and changed
